@@ -62,12 +62,16 @@ package main
 //@   requires 0 <= i && i < len(slots)
 //@   # a server counts as used (and is passed over by the first, one-replica-per-
 //@   # server pass) only from the moment one of its mounts is allocated a replica
-//@   requires wantMnt != nil
+//@   requires wantMnt != nil && protMnt != nil && protMnt != wantMnt
 //@   ensures forall s *KeepService :: wantSrv[s] && !old(wantSrv[s]) ==> s == slots[i].mnt.KeepService && wantMnt[slots[i].mnt] && !old(wantMnt[slots[i].mnt])
 //@   ensures old(wantMnt[slots[i].mnt]) || old(wantDev[slots[i].mnt.DeviceID]) ==> result == false && replProt == old(replProt) && replWant == old(replWant)
 //@   ensures old(slots[i].want) ==> slots[i].want
 //@   ensures slots[i].mnt == old(slots[i].mnt) && slots[i].repl == old(slots[i].repl)
 //@   ensures forall k int :: 0 <= k && k < len(slots) && k != i ==> slots[k] == old(slots[k])
+//@   # which replicas get protected (what the two open findings F09a/F09b are about):
+//@   # exactly the slot's own mount, when it holds a replica, its device is not yet
+//@   # allocated and protection is still short - whatever its class or device
+//@   ensures forall m *KeepMount :: protMnt[m] == (old(protMnt[m]) || (m == slots[i].mnt && !old(wantMnt[slots[i].mnt]) && !old(wantDev[slots[i].mnt.DeviceID]) && old(replProt) < desired && slots[i].repl != nil))
 
 // balanceBlock: the emission rules.  A trash request is generated only for a
 // replica that is not wanted and older than the signature TTL horizon
@@ -110,6 +114,16 @@ package main
 //@   loop 5: invariant roWanted(slots)
 //@   loop 6: invariant 0 <= i && roWanted(slots)
 //@   loop 7: invariant 0 <= i && roWanted(slots)
+//@   # The invariants below are what C05's "each storage class keeps min(desired,
+//@   # existing) replication, counted over distinct physical devices" asks of the
+//@   # protection bookkeeping of one class.  The code does NOT satisfy them (open
+//@   # findings F09a, F09b in /verif/known_findings.json; failing layouts in
+//@   # /verif/findings/F09-balance-protection-counting): they are kept as failing
+//@   # obligations, which the check reports as KNOWN-FINDING.
+//@   # (a) only a replica on a mount of the class being planned protects that class
+//@   loop 6: invariant forall m *KeepMount :: protMnt[m] ==> bal.mountsByClass[class][m]
+//@   # (b) no two protected mounts are views of one device
+//@   loop 6: invariant forall m, n *KeepMount :: protMnt[m] && protMnt[n] && m != n && m.DeviceID != "" ==> m.DeviceID != n.DeviceID
 //@   # the replication counted for a class starts from zero for that class
 //@   loop 8: invariant roWanted(slots) && ($i == 0 ==> safe == 0)
 //@   loop 9: invariant roWanted(slots)
